@@ -24,6 +24,9 @@ type inode struct {
 	osync   bool
 	// pending data operations since the last fsync of this inode
 	pending []dataOp
+	// mtime: simulated time (ns) of the last change of the file's data or of the
+	// directory's entries
+	mtime int64
 }
 
 type dataOp struct {
@@ -118,6 +121,7 @@ type Kernel struct {
 	fds     map[int]*fdesc
 	journal []jop
 	durable map[int]*dinode
+	sim     *simrt.Sim
 	// Lost: writes dropped from write-back by failed fsyncs (see dataOp.lost)
 	Lost    []LostWrite
 	nsys    int
@@ -154,7 +158,18 @@ func (k *Kernel) reset() {
 }
 
 // Attach makes k the kernel of simulation s.
-func Attach(s *simrt.Sim, k *Kernel) { s.Kern = k }
+func Attach(s *simrt.Sim, k *Kernel) { s.Kern = k; k.sim = s }
+
+// touch stamps an inode with the simulated time (which only moves when tasks
+// sleep or stall: two changes at one instant carry one timestamp, as with the
+// coarse clocks of real file systems).
+//
+//go:norace
+func (k *Kernel) touch(in *inode) {
+	if k.sim != nil {
+		in.mtime = k.sim.Now
+	}
+}
 
 //go:norace
 func kernelOf(s *simrt.Sim) *Kernel {
@@ -300,6 +315,8 @@ func (k *Kernel) openat(dirfd int, path string, flags int) (int, syscall.Errno) 
 		k.nextIno++
 		k.inodes[in.ino] = in
 		d.entries[name] = in.ino
+		k.touch(d)
+		k.touch(in)
 		k.journal = append(k.journal, jop{kind: "create", dir: d.ino, name: name, ino: in.ino, seq: k.nsys})
 	}
 	if flags&syscall.O_DIRECTORY != 0 && !in.isDir {
@@ -327,6 +344,7 @@ func (k *Kernel) truncate(in *inode, size int64) {
 		in.data = append(in.data, make([]byte, size-old)...)
 	}
 	in.pending = append(in.pending, dataOp{trunc: true, off: size})
+	k.touch(in)
 }
 
 func (k *Kernel) closefd(fd int) syscall.Errno {
@@ -351,6 +369,7 @@ func (k *Kernel) writeAt(in *inode, p []byte, off int64) {
 	cp := make([]byte, len(p))
 	copyBytes(cp, p)
 	in.pending = append(in.pending, dataOp{off: off, data: cp})
+	k.touch(in)
 	if in.osync {
 		k.forceData(in)
 	}
@@ -502,6 +521,8 @@ func (k *Kernel) mkdirat(dirfd int, path string) syscall.Errno {
 	k.nextIno++
 	k.inodes[in.ino] = in
 	d.entries[name] = in.ino
+	k.touch(d)
+	k.touch(in)
 	k.journal = append(k.journal, jop{kind: "mkdir", dir: d.ino, name: name, ino: in.ino, isDir: true, seq: k.nsys})
 	return 0
 }
@@ -529,6 +550,7 @@ func (k *Kernel) unlinkat(dirfd int, path string, flags int) syscall.Errno {
 	}
 	delete(d.entries, name)
 	in.nlink--
+	k.touch(d)
 	k.journal = append(k.journal, jop{kind: "unlink", dir: d.ino, name: name, seq: k.nsys})
 	return 0
 }
@@ -574,6 +596,8 @@ func (k *Kernel) renameat(ofd int, opath string, nfd int, npath string) syscall.
 	}
 	delete(od.entries, oname)
 	nd.entries[nname] = n
+	k.touch(od)
+	k.touch(nd)
 	k.journal = append(k.journal, jop{kind: "rename", dir: od.ino, name: oname, dir2: nd.ino, name2: nname, seq: k.nsys})
 	return 0
 }
@@ -611,6 +635,7 @@ func (k *Kernel) linkat(ofd int, opath string, nfd int, npath string) syscall.Er
 	}
 	nd.entries[nname] = src.ino
 	src.nlink++
+	k.touch(nd)
 	k.journal = append(k.journal, jop{kind: "link", dir: nd.ino, name: nname, ino: src.ino, seq: k.nsys})
 	return 0
 }
